@@ -80,7 +80,10 @@ class ConfigValue:
             try:
                 return self.type(int(s))
             except ValueError:
-                return self.type[s.upper()]
+                try:
+                    return self.type[s]
+                except KeyError:
+                    return self.type[s.upper()]
         if issubclass(self.type, Mapping):
             return self.type((p2.strip() for p2 in p.strip().split("=")) for p in s.split(","))
         if issubclass(self.type, Iterable):
